@@ -123,6 +123,10 @@ func layouts(thorough bool) []layout {
 		{f("dir/x.mkv", 33000), f("dir/y'\"<>&.srt", 100)},
 		{f("%2F/a", 3), f("%/b", 4)},
 		{f("a", 16384), f("b", 16384), f("c", 16384), f("d", 1)},
+		// padding files inside directories, before / between / after the directory's real files
+		{f("data/1.bin", 1000), pad("data2/.pad/15384", 15384), f("data2/2.bin", 16384), f("data2/3.bin", 5)},
+		{pad("d/.pad/1", 100), f("d/x", 16284), pad("d/e/.pad/2", 7), f("d/e/y", 9)},
+		{f("d/x", 10), pad("d/x.pad", 16374), f("d/y", 10), pad("z", 6), f("zz", 1)},
 	}
 	for i, m := range multi {
 		out = append(out, layout{Name: fmt.Sprintf("multi%d", i), Files: m, Piece: 16384})
